@@ -50,7 +50,7 @@ def build():
     U = Unit('c05_aspa', 'C05', 'ASPA delta: refused exactly when malformed / customer not held / removes an unknown customer; accepted delta applied entirely (event replay == result)')
     prelude.hashmap(U, get_mut=True)
     prelude.strings(U)
-    U.opaque('Asn', 'Clone, Copy, PartialEq, Eq, Hash', eq=True)
+    U.opaque('Asn', 'Clone, Copy, PartialEq, Eq, Hash, PartialOrd, Ord', eq=True, clone_spec=True)
     for t in ['CaHandle']:
         U.opaque(t, 'Clone')
     U.opaque('ResourceSet', '')
@@ -70,13 +70,36 @@ pub fn vx_minus(_a: &Vec<Asn>, _b: &Vec<Asn>) -> Vec<Asn> { unimplemented!() }
     U.enum(ERR, 'Error', keep=['AspaCustomerUnknown', 'AspaProvidersEmpty', 'AspaCustomerAsProvider', 'AspaProvidersDuplicates', 'AspaCustomerAsNotEntitled'], derive=[])
     U.add(SPEC)
     U.add('''
+/// ASSUMED (std): sort gives a sorted permutation; dedup of a sorted vector leaves each value exactly once; slice contains
+pub uninterp spec fn is_sorted<T>(s: Seq<T>) -> bool;
+pub assume_specification<T: Ord> [<[T]>::sort] (s: &mut [T]) ensures final(s)@.to_multiset() == old(s)@.to_multiset(), final(s)@.len() == old(s)@.len(), is_sorted(final(s)@);
+pub assume_specification<T: PartialEq, A: std::alloc::Allocator> [Vec::<T, A>::dedup] (v: &mut Vec<T, A>)
+    ensures is_sorted(old(v)@) ==> final(v)@.no_duplicates() && final(v)@.to_set() == old(v)@.to_set();
+pub assume_specification<T: PartialEq> [<[T]>::contains] (s: &[T], x: &T) -> (r: bool) ensures r == s@.contains(*x);
 pub assume_specification [vx_minus] (a: &Vec<Asn>, b: &Vec<Asn>) -> (r: Vec<Asn>) ensures r@.to_set() == a@.to_set().difference(b@.to_set());
 ''')
     km = 'obeys_key_model::<Asn>()'
     U.impl('impl AspaDefinition', [
         # assumed set-level contracts (bodies use Vec::contains/sort/dedup/retain, outside the verifier)
-        U.fn(API, 'AspaDefinition', 'customer_used_as_provider', external_body=True, ensures=[('assumed', 'r == self.providers@.contains(self.customer)')]),
-        U.fn(API, 'AspaDefinition', 'contains_duplicate_providers', external_body=True, ensures=[('assumed', 'r == !self.providers@.no_duplicates()')]),
+        U.fn(API, 'AspaDefinition', 'customer_used_as_provider', ensures=[('customer_among_providers', 'r == self.providers@.contains(self.customer)')]),
+        # verified against std facts about sort / dedup (assumed: sort permutes and sorts, dedup of a sorted vector keeps each value once)
+        U.fn(API, 'AspaDefinition', 'contains_duplicate_providers', ensures=[('iff_some_provider_listed_twice', 'r == !self.providers@.no_duplicates()')],
+             ghost=[(('after', 'self.providers.clone();'), 'let ghost p0 = providers@; proof { assert(p0 =~= self.providers@); }'),
+                    (('after', 'providers.sort();'), 'let ghost s1 = providers@;'),
+                    (('after', 'providers.dedup();'), '''proof {
+            let d = providers@;
+            p0.to_multiset_ensures(); s1.to_multiset_ensures();
+            assert(s1.to_set() =~= p0.to_set()) by {
+                assert forall |x: Asn| s1.to_set().contains(x) <==> p0.to_set().contains(x) by {
+                    assert(s1.contains(x) <==> s1.to_multiset().count(x) > 0);
+                    assert(p0.contains(x) <==> p0.to_multiset().count(x) > 0);
+                }
+            }
+            d.unique_seq_to_set();
+            p0.lemma_cardinality_of_set();
+            if p0.no_duplicates() { p0.unique_seq_to_set(); }
+            if p0.len() == p0.to_set().len() { p0.lemma_no_dup_set_cardinality(); }
+        }''')]),
         U.fn(API, 'AspaDefinition', 'apply_update', external_body=True, ensures=[
             ('assumed', 'final(self).customer == old(self).customer && final(self).providers@.to_set() == upd(old(self).providers@.to_set(), *update)')]),
     ])
